@@ -14,7 +14,7 @@
 import SelfiesVerif.Proofs.RingUpdate
 namespace SV
 
-theorem getIdx_ok {α} {l : List α} {i : Nat} {x : α} (h : getIdx l i = .ok x) : l[i]? = some x := by
+theorem getIdx_okD {α} {l : List α} {i : Nat} {x : α} (h : getIdx l i = .ok x) : l[i]? = some x := by
   unfold getIdx at h
   split at h
   · cases h; assumption
@@ -47,10 +47,10 @@ theorem formRings_inv (T : Table) : ∀ (rings : List RingReq) (m : Mol) (ringsM
       bind_at h with ⟨lcount, h3, h⟩
       bind_at h with ⟨rcount, h4, h⟩
       dsimp only at h
-      have hal := getIdx_ok h1
-      have har := getIdx_ok h2
-      have hcl := getIdx_ok h3
-      have hcr := getIdx_ok h4
+      have hal := getIdx_okD h1
+      have har := getIdx_okD h2
+      have hcl := getIdx_okD h3
+      have hcr := getIdx_okD h4
       split at h
       · exact ih _ _ _ h hI hRrest
       · rename_i hfree
@@ -70,7 +70,7 @@ theorem formRings_inv (T : Table) : ∀ (rings : List RingReq) (m : Mol) (ringsM
         split at h
         · bind_at h with ⟨bond, h5, h⟩
           bind_at h with ⟨m1, h6, h⟩
-          obtain ⟨row, hrow, hbm, hbd⟩ := getDirBond_ok h5
+          obtain ⟨row, hrow, hbm, hbd⟩ := getDirBond_okM h5
           have hbo := hI.bonds _ _ hrow _ hbm
           rcases updateBondOrder_eq hI hlr h6 with rfl | ⟨ab, rowl, rowr, cl, cr, e1, e2, e3, e4, e5, e6,
             hn1, hn3, hring, hchain, eadj, ecnt, eat, ert⟩
